@@ -75,6 +75,7 @@ pub fn outcome<T>(r: std::thread::Result<Result<T, Error>>, f: impl FnOnce(&T) -
 /// 1 `SubjectPublicKeyInfo::from_der(public_key_der)`, 2 public key of a parsed CSR
 pub fn run_cert_case(ctx: &mut Ctx, drv: &mut Driver, p: &PCert, issuer: Option<&IssuerCtx>, subject_alg: &str, via_spki: bool) -> CaseOut {
 	let key = ctx.key(subject_alg);
+	let key = &*key;
 	let key_s = key_sexp(key);
 	let issuer_s = match issuer {
 		None => "self".to_string(),
@@ -103,6 +104,7 @@ pub fn run_cert_case(ctx: &mut Ctx, drv: &mut Driver, p: &PCert, issuer: Option<
 
 pub fn run_csr_case(ctx: &mut Ctx, drv: &mut Driver, p: &PCert, attrs: &[PAttr], subject_alg: &str) -> CaseOut {
 	let key = ctx.key(subject_alg);
+	let key = &*key;
 	let line = format!(
 		"csr {} {} {}",
 		p.sexp(),
